@@ -1311,6 +1311,16 @@ def main(repo: str, outdir: str, dry: bool = False) -> int:
         return (HEADER + "import Optyx.Py.PostSupport\n\nnamespace Optyx.Generated\nopen Optyx.Py.Post\n\n" + body
                 + "\nend Optyx.Generated\n")
 
+    def f_svs():
+        import py2lean_state
+        import py2lean
+        try:
+            body = py2lean_state.gen_svs(src("problem.py"))
+        except (py2lean_state.TranslateError, py2lean.TranslateError) as e:
+            raise TranslateError(str(e))
+        return (HEADER + "import Optyx.Syntax\n\nset_option linter.unusedVariables false\n\n"
+                "namespace Optyx.Generated\nopen Optyx\n\n" + body + "\nend Optyx.Generated\n")
+
     def f_problemedit():
         import py2lean_state
         try:
@@ -1336,7 +1346,7 @@ def main(repo: str, outdir: str, dry: bool = False) -> int:
                         ("ApiGlue", f_apiglue), ("LPGlue", f_lpglue), ("SortGlue", f_sort),
                         ("DegreeStep", f_degstep), ("GradStep", f_gradstep), ("LPStep", f_lpstep), ("JacRowVec", f_jacrowvec),
                         ("ScipyPost", f_scipypost), ("ProblemEdit", f_problemedit),
-                        ("ConstraintFns", f_constraintfns)):
+                        ("ConstraintFns", f_constraintfns), ("SvsStep", f_svs)):
         path = os.path.join(outdir, fname + ".lean")
         try:
             text = make()
